@@ -1,6 +1,7 @@
 package harness
 
 import (
+	"crypto/sha256"
 	"fmt"
 	"strings"
 	"testing"
@@ -84,6 +85,24 @@ func alterations(h *NetH, p Pkt) []Pkt {
 
 func famC01(t *testing.T) []netFamily {
 	return []netFamily{
+		{"genuine-proof-re-encoded-against-the-proof-spec", func(h *NetH) {
+			// the commitment of packet P is sha256(data).  A relayer takes the genuine proof of P's
+			// commitment, hashes the proven value himself and marks the leaf "value not pre-hashed":
+			// every hash up to the root is unchanged, but the proof now reads "sha256(sha256(data)) is
+			// stored" -- the commitment of the never-sent packet whose data is P's commitment
+			A, B := h.names[0], h.names[1]
+			p := h.sendOK(0, Pkt{1, A, B, "", "tibcmock", "~genuine-payload"})
+			h.UpdateClient(1, 0)
+			ht := h.latestKnown(1, 0)
+			sum := sha256.Sum256([]byte(p.Data))
+			forged := Pkt{1, A, B, "", "tibcmock", string(sum[:])}
+			h.forgeNext = "rehash-value"
+			h.Recv(1, forged, ProofSpec{0, commitKey(p)}, ht) // never committed by A
+			h.forgeNext = "rehash-value"
+			h.Recv(1, p, ProofSpec{0, commitKey(p)}, ht) // the genuine packet with the re-encoded proof
+			h.recvAt(1, 0, p, ht)                        // genuine packet, genuine proof
+			h.hopAck(0, 1, p, mockAck)
+		}},
 		{"direct-valid-and-every-alteration", func(h *NetH) {
 			A, B := h.names[0], h.names[1]
 			p := h.sendOK(0, Pkt{1, A, B, "", "tibcmock", "~payload"})
@@ -166,6 +185,32 @@ func famC02(t *testing.T) []netFamily {
 			h.recvAt(1, 0, q, h0) // same key, other data
 			h.recvAt(1, 0, ps[3], h0)
 			h.recvAt(1, 0, ps[3], h0)
+		}},
+		{"partial-clean-with-two-and-three-digit-sequences", func(h *NetH) {
+			// receipts and acknowledgements live under keys that end in the DECIMAL sequence: a partial
+			// clean must remove exactly the sequences up to N, not whatever sorts between them as text
+			// ("10".."19" lie between "1" and "2"); everything delivered above N stays protected
+			A, B := h.names[0], h.names[1]
+			var ps []Pkt
+			for s := uint64(1); s <= 21; s++ {
+				ps = append(ps, h.sendOK(0, Pkt{s, A, B, "", "tibcmock", fmt.Sprintf("~q%d", s)}))
+			}
+			h.UpdateClient(1, 0)
+			h0 := h.latestKnown(1, 0)
+			for _, s := range []int{1, 2, 3, 10, 11, 12, 19, 20, 21} {
+				h.recvAt(1, 0, ps[s-1], h0)
+			}
+			h.hopAck(0, 1, ps[0], mockAck)
+			h.hopAck(0, 1, ps[1], mockAck)
+			h.Clean(0, CPkt{2, "", B, ""})
+			h.UpdateClient(1, 0)
+			h.RecvClean(1, CPkt{2, A, B, ""}, ProofSpec{0, cleanKey(A, B)}, h.latestKnown(1, 0))
+			for _, s := range []int{1, 2, 3, 10, 11, 12, 19, 20, 21} {
+				h.recvAt(1, 0, ps[s-1], h0) // replays of everything delivered: all refused
+			}
+			h.recvAt(1, 0, ps[3], h0) // 4: first delivery
+			h.hopAck(0, 1, ps[2], mockAck)
+			h.hopAck(0, 1, ps[9], mockAck) // the acknowledgement of 10 is still there to be proven
 		}},
 		{"duplicate-on-relay-hop", func(h *NetH) {
 			A, B, C := h.names[0], h.names[1], h.names[2]
@@ -486,7 +531,7 @@ func famC10(t *testing.T) []netFamily {
 }
 
 func TestC10(t *testing.T) {
-	runNetProperty(t, "C10", []string{"C10:"}, famC10(t), tierN(24, 400),
+	runNetProperty(t, "C10", []string{"C10:"}, append(famC10(t), famC02(t)[1]), tierN(24, 400),
 		genCfg{Chains: 3, Ops: 50, Perturb: 10, Clean: true, Rules: true},
 		"directed: cleans below/at/above the clean point and max-ack, past unacknowledged packets, repeated, out-of-order acks around N, destination before source, through a relay, replays after clean; random: seeded histories with 7% clean operations; non-trivial = history with accepted and rejected messages")
 }
